@@ -55,6 +55,7 @@ Occ(d, v) == IF (d + v) % 2 = 0 THEN 2 ELSE 1
 (* page settings for the configs (cfg files cannot write records) *)
 P(size, from, desc) == [size |-> size, from |-> from, desc |-> desc]
 PagesOne   == { P(10, 0, FALSE) }
+PagesEvict == { P(1, 1, TRUE) }      \* Size+From = 2: the store evicts as soon as 3 documents match
 PagesTwo   == { P(10, 0, FALSE), P(1, 1, TRUE) }
 PagesQuick == { P(10, 0, FALSE), P(1, 0, FALSE), P(1, 1, TRUE), P(0, 0, FALSE) }
 PagesThree == { P(10, 0, FALSE), P(1, 1, TRUE), P(2, 1, FALSE) }
@@ -246,11 +247,12 @@ PageOK ==
 (* Merge + Fixup (alias): for every split of the matches into two shards whose
    child results were not trimmed (size >= buckets of each shard), merging the
    children and fixing up equals the single result. *)
+MergeFilters == {1, 3}     \* unfiltered and regexp-filtered terms facets
 MergeLemma ==
   pc = "done" =>
     \A A \in SUBSET Matched : \A s \in Sizes :
       LET B == Matched \ A IN
-      /\ \A f \in 1..NF :
+      /\ \A f \in MergeFilters :
            (Cardinality(TermBuckets(V, A, PassSets[f])) <= s /\ Cardinality(TermBuckets(V, B, PassSets[f])) <= s)
              => Visible(Fixup(MergeFR(DeclTerms(V, A, PassSets[f], s), DeclTerms(V, B, PassSets[f], s)), s))
                 = out.t[f][s]
